@@ -210,14 +210,29 @@ def load_case(case):
             residues += list(gen3d.rebuild(base, model=k + 2, point_fn=lambda xyz, ri, a: xyz + noise[ri][a] + t).residues)
         if case.get("interleave"):
             residues.sort(key=lambda r: (r.chain, r.number, r.icode or " ", r.model))
-        return Structure3D(residues)
+        s3m = Structure3D(residues)
+        numbers = model_numbers(case)
+        if numbers != list(range(1, len(numbers) + 1)):
+            # the models carry drawn numbers (frames counted from 0, a subset 2 / 5 / 7 of an ensemble)
+            ren = dict(zip(range(1, len(numbers) + 1), numbers))
+            parts = []
+            for r in s3m.residues:
+                parts += list(gen3d.rebuild(Structure3D([r]), model=ren[r.model]).residues)
+            s3m = Structure3D(parts)
+        return s3m
     return c03.load_case(case)
+
+
+def model_numbers(case):
+    n = len(case["models"]) + 1
+    numbers = list(case.get("model_numbers") or range(1, n + 1))
+    return (numbers + [max(numbers) + 1 + k for k in range(n)])[:n]
 
 
 def oracle(case):
     s3 = load_case(case)
     if case["kind"] == "multimodel":
-        models = tuple(range(1, len(case["models"]) + 2))
+        models = tuple(model_numbers(case))
     else:
         models = (None,)
     ds, info = evaluate(s3, models, merge=bool(case.get("split")))
@@ -280,7 +295,8 @@ def st_multimodel(files):
     mv = st.fixed_dictionaries({"sigma": st.sampled_from([0.0, 0.05, 0.3]), "noise_seed": st.integers(0, 2 ** 31),
                                 "shift": st.one_of(st.just([0.0, 0.0, 0.0]), st.lists(st.floats(-3, 3), min_size=3, max_size=3))})
     return st.fixed_dictionaries({"kind": st.just("multimodel"), "file": st.sampled_from(files),
-                                  "models": st.lists(mv, min_size=1, max_size=2), "interleave": st.booleans()})
+                                  "models": st.lists(mv, min_size=1, max_size=2), "interleave": st.booleans(),
+                                  "model_numbers": st.sampled_from([None, None, [0, 1, 2], [2, 5, 7], [3, 1, 2]])})
 
 
 def plan(tier, seed):
